@@ -491,7 +491,7 @@ def main():
         os.makedirs(rdir, exist_ok=True)
         seen = set()
         for r, o in violations:
-            key = (r['unit'], o['name'])
+            key = (r['unit'], re.sub(r'\.\d+@', '@', o['name']))   # same kind of check at the same source line: report once
             if key in seen: continue
             seen.add(key)
             path, reproduced = RP.make_replay(VERIF, REPO, rdir, a.prop, r, o)
